@@ -271,6 +271,12 @@ static void oracle_access(void* addr, int sz, int w, void* pc) {
       fstack_t* f = &fmc_fstacks[i];
       if (!f->alive || a < f->lo || a >= f->hi) continue;
       if (f->ctx == fmc_cur_ctx[me]) break;  // own stack
+      if (f->hot && f->running_on != me) {
+        char b[300];
+        snprintf(b, sizeof b, "stack: %s at %p by T%d pc=%p touches the stack of fiber #%d after that fiber was made runnable (its frames may be gone: use after return)",
+                 w ? "write" : "read", addr, me, pc, f->id);
+        fmc_finish(V_FAIL, b);
+      }
       uintptr_t sp = f->running_on >= 0 ? T[f->running_on].sp : (uintptr_t)*f->sp_slot;
       if (sp >= f->lo && sp <= f->hi && a + 128 < sp) {
         char b[300];
